@@ -1,4 +1,5 @@
 import abc
+import asyncio
 from datetime import datetime, timezone
 from functools import reduce
 from itertools import count
@@ -64,6 +65,10 @@ class FixSession(common.AsyncSession):
         except common.EndOfQueue:
             await self.close()
             raise ConnectionRefusedError('Connection reset by server.')  # pylint: disable=W0707
+        except asyncio.CancelledError:
+            # the caller gave up (cancelled or timed out): do not leave a half-open session behind
+            await self.close()
+            raise
 
         self.log.debug('%s> received logon response: %s', self.session_id, logon_resp)
         self.log.debug('%s> login success', self.session_id)
